@@ -554,6 +554,9 @@ class Exec:
 
     def _note_write(self, what, line):
         for lm in getattr(self, 'loop_frames', []):
+            if getattr(lm, 'live', None) is not None and what in lm.live:
+                self.vc('safe.mutation-during-iteration@%d' % line, z3.BoolVal(False), line,
+                        note='%s is written while a generator/filter is still iterating it' % what)
             if what not in lm.mods:
                 self.vc('frame.loop.%s@%d' % (what, line), z3.BoolVal(False), line,
                         note='write to %s inside a loop whose contract does not list it' % what)
@@ -1124,6 +1127,8 @@ class Exec:
                 last = i == len(e.values) - 1
                 t = self.truth(v, e.lineno)
                 boolish = isinstance(t, bool) or (isinstance(v, V) and v.ty == BOOL)
+                if not boolish and getattr(self, 'no_fork', 0):
+                    boolish = True       # inside a predicate only the truth value of `a or b` is used
                 if not boolish:
                     # value-returning and/or: commit what we know and fork on this operand
                     del self.guards[depth:]
@@ -1294,6 +1299,11 @@ class Exec:
             return self.coll_binop(op, a, b, line)
         sym = a if isinstance(a, V) else b
         ty = sym.ty
+        if ty == BOOL and isinstance(op, (ast.BitOr, ast.BitAnd)):
+            ba, bb = self.truth(a, line), self.truth(b, line)
+            ba = ba if not isinstance(ba, bool) else z3.BoolVal(ba)
+            bb = bb if not isinstance(bb, bool) else z3.BoolVal(bb)
+            return V(z3.Or(ba, bb) if isinstance(op, ast.BitOr) else z3.And(ba, bb), BOOL)
         if ty in (INT, REAL, BOOL):
             ta, tb = self._num(a), self._num(b)
             if isinstance(op, ast.Add):
@@ -1613,6 +1623,11 @@ class Exec:
         ident = isinstance(elt, ast.Name) and isinstance(g.target, ast.Name) and elt.id == g.target.id
         it = Iter(src, filt, None if ident else Lam([g.target], elt, env))
         it.kind = kind
+        if kind in ('list', 'set') and not getattr(self, 'no_fork', 0):
+            try:
+                return self.materialize(it)          # a list/set display is built at once (a generator is not)
+            except Unsupported:
+                return it
         return it
 
     def apply_lam(self, lam, args, kwargs=None, line=0):
@@ -1707,6 +1722,8 @@ class Exec:
         coll = self.world.iter_source(self, src, line)      # -> C with SetOf / SeqOf
         if coll is None:
             raise Unsupported('iteration over %r' % (src,))
+        if (filt is not None or fmap is not None) and isinstance(coll, C) and isinstance(coll.loc, (FieldLoc, GlobLoc)):
+            self._live_iter = coll.loc       # a lazy filter/generator walks the live list (list.__iter__ does not snapshot)
         self.loop_cut(s, coll, filt, fmap)
 
     def register_synth_loop(self, loop):
@@ -1819,6 +1836,8 @@ class Exec:
     def loop_cut(self, s, coll, filt, fmap):
         """for x in <symbolic collection>: init / step / use"""
         idx, spec = self.loop_spec(s)
+        live = getattr(self, '_live_iter', None)
+        self._live_iter = None
         line = s.lineno
         cty = coll.ty
         it_term = self.read(coll)            # snapshot of the iterated collection (what the real iterator walks)
@@ -1862,6 +1881,7 @@ class Exec:
                 self.assume(f)
             x = self.wrap(x_t, elem_ty)
             self.loop_frames = frames + [LoopFrame(spec.modifies, pre_boxes, self._last_havoced)]
+            self.loop_frames[-1].live = repr(live) if live is not None else None
             self.loop_done[idx] = done
             self.loop_done[self.loop_keys.get(id(s), idx)] = done
             try:
